@@ -3,7 +3,7 @@
 From Coq Require Import List ZArith Bool Reals.
 From Coquelicot Require Import Coquelicot.
 Import ListNotations.
-Require Import Num C10_Model C10_Proofs.
+Require Import Num Vec rot_gen C10_Model C10_Proofs C10_PrescModel C10_PrescProofs.
 Open Scope R_scope.
 
 Theorem C10_sinusoid_dot_is_derivative a w p t : is_derive (fun t => sin_val ROps a w p t) t (sin_dot ROps a w p t).
@@ -112,3 +112,39 @@ Theorem C10_motion_forces_reproduce_unique (V P:Type) (vadd vsub:V -> V -> V) (v
   forall udot tau f x, vadd (Mop udot) (Ep tau) = f -> Mop x = vsub f (Ep tau) -> x = udot.
 Proof. intros H1 H2 H3 H4 H5 H6. exact (motion_forces_reproduce_unique V P vadd vsub vzero dot Mop Ep H1 H2 H3 H4 H5 H6). Qed.
 Print Assumptions C10_motion_forces_reproduce_unique.
+
+(** position-level Motion on a mobilizer with qdot = N(q) u (Ball, Free, Ellipsoid in Euler-angle mode); the helpers are the
+    translations of Rotation.h in Gen/rot_gen.v, their properties are those of C28 *)
+Theorem C10_prescribed_qdot_exact c0 s0 c1 s1 : c1 <> 0 -> s0*s0 + c0*c0 = 1 -> forall qd : Vec3 R,
+  rep_qdot3 ROps (c0,c1) (s0,s1) (1/c1) (presc_u3 ROps (c0,c1) (s0,s1) qd) = qd.
+Proof. exact (prescribed_qdot_exact c0 s0 c1 s1). Qed.
+Print Assumptions C10_prescribed_qdot_exact.
+
+Theorem C10_prescribed_qdotdot_exact c0 s0 c1 s1 : c1 <> 0 -> s0*s0 + c0*c0 = 1 -> s1*s1 + c1*c1 = 1 -> forall qd qdd : Vec3 R,
+  rep_qdotdot3 ROps (c0,c1) (s0,s1) (1/c1) (rep_qdot3 ROps (c0,c1) (s0,s1) (1/c1) (presc_u3 ROps (c0,c1) (s0,s1) qd))
+               (presc_udot3 ROps true (c0,c1) (s0,s1) (1/c1) qd qdd) = qdd.
+Proof. exact (prescribed_qdotdot_exact c0 s0 c1 s1). Qed.
+Print Assumptions C10_prescribed_qdotdot_exact.
+
+Theorem C10_prescribed_qdotdot_wrong_sign c0 s0 c1 s1 : c1 <> 0 -> s0*s0 + c0*c0 = 1 -> s1*s1 + c1*c1 = 1 -> forall qd qdd : Vec3 R,
+  rep_qdotdot3 ROps (c0,c1) (s0,s1) (1/c1) (rep_qdot3 ROps (c0,c1) (s0,s1) (1/c1) (presc_u3 ROps (c0,c1) (s0,s1) qd))
+               (presc_udot3 ROps false (c0,c1) (s0,s1) (1/c1) qd qdd)
+  = v3_add ROps (v3_add ROps qdd (ndot_u3 ROps (c0,c1) (s0,s1) (1/c1) qd (presc_u3 ROps (c0,c1) (s0,s1) qd)))
+                (ndot_u3 ROps (c0,c1) (s0,s1) (1/c1) qd (presc_u3 ROps (c0,c1) (s0,s1) qd)).
+Proof. exact (prescribed_qdotdot_wrong_sign c0 s0 c1 s1). Qed.
+Print Assumptions C10_prescribed_qdotdot_wrong_sign.
+
+Theorem C10_prescribed_qdotdot_wrong_sign_refuted :
+  exists qd qdd, rep_qdotdot3 ROps (1,1) (0,0) (1/1) (rep_qdot3 ROps (1,1) (0,0) (1/1) (presc_u3 ROps (1,1) (0,0) qd))
+                              (presc_udot3 ROps false (1,1) (0,0) (1/1) qd qdd) <> qdd.
+Proof. exact prescribed_qdotdot_wrong_sign_refuted. Qed.
+Print Assumptions C10_prescribed_qdotdot_wrong_sign_refuted.
+
+Theorem C10_sinusoid_on_ball_all_levels a w p t :
+  let q := sin_val ROps a w p t in let qd := sin_dot ROps a w p t in let qdd := sin_dotdot ROps a w p t in
+  cos q <> 0 ->
+  let '(u, udot, qdot, qdotdot) := presc_all ROps true (q,q,q) (qd,qd,qd) (qdd,qdd,qdd) in
+  qdot = (qd,qd,qd) /\ qdotdot = (qdd,qdd,qdd) /\
+  is_derive (fun s => sin_val ROps a w p s) t qd /\ is_derive (fun s => sin_dot ROps a w p s) t qdd.
+Proof. exact (sinusoid_on_ball_all_levels a w p t). Qed.
+Print Assumptions C10_sinusoid_on_ball_all_levels.
